@@ -674,6 +674,8 @@ def gen_sequence(rng):
         else:
             algo = what.split(":")[1]
             k = rng.randint(1, 2) if algo == "scipy_minimize" else rng.randint(1, 4)
+            if algo != "scipy_minimize" and rng.random() < 0.25:
+                k = 6          # as many individuals as the training cohort (what a fit leaves in the state then "fits" the new data)
             op = dict(op="personalize", algo=algo, cohort=rng.randint(1, 5), ids=rng.sample(range(6), k),
                       **{"as": rng.choice(["df", "df", "data", "dataset"])}, seed=rng.randint(0, 99))
             if algo in MCMC:
@@ -710,6 +712,13 @@ DIRECTED = [
                                dict(op="estimate", form="dict", n=2, seed=4),
                                {"op": "personalize", "algo": "mode_posterior", "cohort": 2, "ids": [2, 4], "as": "data", "seed": 6, "n_iter": 10, "sampler_pop": "Metropolis-Hastings"},
                                dict(op="simulate", visits="random", seed=2)]),
+    # the training cohort itself (same number of individuals as the values the fit left in the state) personalised right after the fit,
+    # then again: the answer must be the one of a freshly loaded copy, both times
+    dict(kind="logistic", ops=[dict(op="fit", cohort=2, n_iter=6, seed=4),
+                               {"op": "personalize", "algo": "mean_posterior", "cohort": 2, "ids": [0, 1, 2, 3, 4, 5], "as": "df", "seed": 3, "n_iter": 10},
+                               {"op": "personalize", "algo": "mean_posterior", "cohort": 2, "ids": [0, 1, 2, 3, 4, 5], "as": "df", "seed": 3, "n_iter": 10}]),
+    dict(kind="linear", ops=[dict(op="fit", cohort=3, n_iter=5, seed=2),
+                             {"op": "personalize", "algo": "mode_posterior", "cohort": 4, "ids": [5, 4, 3, 2, 1, 0], "as": "data", "seed": 7, "n_iter": 9}]),
     dict(kind="linear", ops=[dict(op="load"),
                              {"op": "personalize", "algo": "mode_posterior", "cohort": 3, "ids": [1, 2, 5], "as": "dataset", "seed": 8, "n_iter": 9, "sampler_pop": "FastGibbs",
                               "sampler_pop_params": dict(acceptation_history_length=5)},
